@@ -1119,6 +1119,11 @@ class C06(Prop):
                 continue
             except LiquidError as err:
                 res.labels.append(f"graph-other-error:{type(err).__name__}")
+                if cyc and type(err).__name__ != "DisabledTagError":  # (include refused inside render: no cycle is run)
+                    # "always terminate with a depth or inheritance error": a syntax error blamed on a template
+                    # that parses fine (stack exhausted while loading a partial) is neither
+                    res.fail("recursion", f"recursion:{shape}:wrong-error:{type(err).__name__}",
+                             f"context_depth_limit={lim}: {type(err).__name__}: {str(err).splitlines()[0][:120]}; {ctxt}")
                 continue
             except CaseTimeout:
                 res.fail("recursion", f"recursion:{shape}:hang", f"context_depth_limit={lim}: no result after the "
